@@ -32,7 +32,7 @@ func strs(ss ...string) []*string {
 func generalValues() []*V {
 	return []*V{
 		nil, Nul(), S("a"), S("ab"), S("AB"), S("é"), S(""), N("0"), N("12"), S("12"), B(true),
-		A(), A(N("1"), N("2")), O(), O(F("x", S("a"))), S("k"), S(kelvin), S("ba"), S(kelvin + "b"),
+		A(), A(N("1"), N("2")), O(), O(F("x", S("a"))), S("k"), S(kelvin), S("ba"), S(kelvin + "b"), S("bab"),
 	}
 }
 
@@ -174,7 +174,7 @@ func leafAlphabet(thorough bool) []*Rule {
 			}
 		}
 	}
-	cmpVals := []int{0, 1, 2, 3, 5, 9, 12}
+	cmpVals := []int{0, 1, 2, 3, 5, 8, 9, 12}
 	if thorough {
 		cmpVals = []int{0, 1, 2, 3, 4, 5, 6, 8, 9, 10, 11, 12, 13, 123, 124}
 	}
@@ -260,7 +260,7 @@ func lowerChangesLen(b []byte) bool { return len(bytes.ToLower(b)) != len(b) }
 func whyLeaf(rule *Rule, doc *V) string {
 	v := lookup(doc, parsePath(rule.Field))
 	if v != nil && (v.Kind == Arr || v.Kind == Obj) {
-		if (rule.Op == "byte_len_cmp") && len(v.Elems)+len(v.Fields) == 0 {
+		if rule.Op == "byte_len_cmp" && hasEmptyContainer(v) {
 			return "empty-container"
 		}
 		return "container-field"
@@ -277,6 +277,26 @@ func whyLeaf(rule *Rule, doc *V) string {
 		}
 	}
 	return "plain"
+}
+
+func hasEmptyContainer(v *V) bool {
+	if v.Kind != Arr && v.Kind != Obj {
+		return false
+	}
+	if len(v.Elems)+len(v.Fields) == 0 {
+		return true
+	}
+	for _, e := range v.Elems {
+		if hasEmptyContainer(e) {
+			return true
+		}
+	}
+	for _, f := range v.Fields {
+		if hasEmptyContainer(f.V) {
+			return true
+		}
+	}
+	return false
 }
 
 func kindOf(v *V) string {
@@ -418,6 +438,71 @@ func seq(n int) (fwd, rev []int) {
 		rev = append(rev, n-1-i)
 	}
 	return
+}
+
+// ---- phase 0: the examples printed in pipeline/README.md "Match modes" ---------------------------------
+
+type docExample struct {
+	rule MFRule
+	evs  []string
+	want []bool
+}
+
+func readmeExamples() []docExample {
+	ns, pod := "k8s_namespace", "k8s_pod"
+	ev := func(a, b string) string { return O(F(ns, S(a)), F(pod, S(b))).String() }
+	return []docExample{
+		{MFRule{Mode: "and", Conds: []MFCond{{Field: ns, List: []string{"payment", "tarifficator"}}, {Field: pod, Single: sp("/^payment-api.*/")}}},
+			[]string{ev("payment", "payment-api-abcd"), ev("tarifficator", "payment-api"), ev("payment-tarifficator", "payment-api"), ev("tarifficator", "no-payment-api")},
+			[]bool{true, true, false, false}},
+		{MFRule{Mode: "or", Conds: []MFCond{{Field: ns, List: []string{"payment", "tarifficator"}}, {Field: pod, Single: sp("/^payment-api.*/")}}},
+			[]string{ev("payment", "payment-api-abcd"), ev("tarifficator", "payment-api"), ev("map", "payment-api"), ev("payment", "map-api"), ev("tarifficator", "tarifficator-go-api"), ev("sre", "cpu-quotas-abcd-1234")},
+			[]bool{true, true, true, true, true, false}},
+		{MFRule{Mode: "and_prefix", Conds: []MFCond{{Field: ns, Single: sp("payment")}, {Field: pod, Single: sp("payment-api-")}}},
+			[]string{ev("payment", "payment-api-abcd-1234"), ev("payment-2", "payment-api-abcd-1234"), ev("payment", "checkout"), ev("map", "payment-api-abcd-1234"), ev("payment-abcd", "payment-api")},
+			[]bool{true, true, false, false, false}},
+		{MFRule{Mode: "or_prefix", Conds: []MFCond{{Field: ns, List: []string{"payment", "tarifficator"}}, {Field: pod, Single: sp("/-api-.*/")}}},
+			[]string{ev("payment", "payment-api-abcd-1234"), ev("payment", "checkout"), ev("map", "map-go-api-abcd-1234"), ev("map", "payment-api"), ev("map", "payment-api-abcd-1234"), ev("tariff", "tarifficator")},
+			[]bool{true, true, true, false, true, false}},
+	}
+}
+
+func (c *checker) phaseReadme() {
+	r := c.r
+	if !r.Mine(0) {
+		return
+	}
+	for _, ex := range readmeExamples() {
+		rule := ex.rule
+		s, txt, err := mfConfig(&rule)
+		if err != nil {
+			r.Violation("build", map[string]string{"part": "match_fields", "way": "config"}, fmt.Sprintf("README example %s rejected: %v", txt, err), nil)
+			continue
+		}
+		for i, t := range ex.evs {
+			d, err := Parse(t)
+			if err != nil {
+				panic(err)
+			}
+			e := mkEvent(d)
+			got := s.decide(e.ev)
+			r.Case()
+			r.Steps(1)
+			r.Count("readme_examples", 1)
+			if ex.want[i] {
+				r.Nontrivial()
+			}
+			if got != ex.want[i] {
+				u := "missed-match"
+				if got {
+					u = "false-match"
+				}
+				r.Violation("match_fields", map[string]string{"part": "match_fields", "mode": rule.Mode, "regexp": "yes", "underlying": u},
+					fmt.Sprintf("example of pipeline/README.md: action config %s\nevent %s\nreal decision=%v, the README says %v", txt, t, got, ex.want[i]),
+					caseDoc{Kind: "match_fields", MF: &rule, Event: t})
+			}
+		}
+	}
 }
 
 // ---- phase 1: every leaf x every event ---------------------------------------------
@@ -768,7 +853,7 @@ func (c *checker) phaseMF(evs []*event, thorough bool) {
 		}
 	}
 	// two conditions on different fields; both orders of the literal (the config is an unordered map)
-	step := 3
+	step := 2
 	if thorough {
 		step = 1
 	}
@@ -893,9 +978,10 @@ func TestVerif(t *testing.T) {
 	r.Assume("documentation silent (not judged at leaf level, observed leaf value used inside trees): field ops on absent/null fields and null values; " +
 		"regex with case_sensitive:false where (?i) would differ; byte_len_cmp on absent/null/bool; int_val_cmp on anything but a JSON integer; match_fields on non-string fields")
 
+	c.phaseReadme()
 	c.phaseLeaves(leaves, evs)
 
-	nLeaves, depth := 8, 2
+	nLeaves, depth := 10, 2
 	if thorough {
 		nLeaves = 14
 	}
